@@ -206,7 +206,9 @@ prop('C15', title='Keychain contents, defaults and signers stay consistent over 
                 'every combination of arguments (selection cert > key > identity > default, key locator, TPM signer for exactly that '
                 'pair, cache keyed by the pair); del_key / del_cert / new_key / import_cert / touch_identity / del_identity (any number of keys) with a failure of any '
                 'exception class injected at every database and TPM step: nothing uncommitted is left behind, failures are rolled back, '
-                'an orphan private key is removed, the signer cache is emptied before any deletion.',
+                'an orphan private key is removed, the signer cache is emptied before any deletion; TpmFile.get_signer / key_exist / '
+                'save_key / delete_key over a ghost file system: every operation addresses the file named after exactly that key name, '
+                'a deleted key\'s file is gone and no other file is touched, the signer is built from that file\'s content.',
      technique=T_BOUNDED)
 prop('C17', title='Prefix registration speaks the forwarder management protocol correctly', level='proof',
      bounded=[('bounded.c17', 'run', SH)],
